@@ -656,6 +656,22 @@ pub fn fixed_specs(root: &N, m: &Material) -> Vec<Value> {
       out.push(json!({"rule": {"all": [{"matches": "u0"}, {"regex": "(?s)."}]}, "utils": utils, "globals": globals}));
     }
   }
+  // two local utilities that refer to each other through RELATIONS, the reference sitting next to
+  // another key / inside `any`: whichever of them is built first meets a reference to a utility that
+  // is not registered yet — what it assumes about that utility's kinds must not outlive the moment
+  if let Some((pk, ck)) = root
+    .dfs()
+    .filter(|n| n.is_named() && !n.kind().is_empty() && n.kind() != "ERROR")
+    .find_map(|n| n.children().find(|c| c.is_named() && !c.kind().is_empty() && c.kind() != "ERROR" && c.kind() != n.kind()).map(|c| (n.kind().to_string(), c.kind().to_string())))
+  {
+    let utils = json!({
+      "outer": {"kind": pk, "has": {"kind": ck, "matches": "inner", "stopBy": "end"}},
+      "inner": {"any": [{"kind": ck}, {"kind": pk, "has": {"kind": ck, "matches": "outer", "stopBy": "end"}}]},
+    });
+    out.push(json!({"rule": {"matches": "outer"}, "utils": utils}));
+    out.push(json!({"rule": {"matches": "inner"}, "utils": utils}));
+    out.push(json!({"rule": {"kind": pk, "has": {"all": [{"matches": "inner"}, {"kind": ck}], "stopBy": "end"}}, "utils": utils}));
+  }
   let mut picked = 0usize;
   for n in root.dfs() {
     if picked >= 4 {
